@@ -14,6 +14,7 @@ import multiprocessing as mp
 import random
 
 import common_check as cc
+import gen as G_
 import engine_corr as ec
 import lib
 from checks import c04
@@ -248,6 +249,41 @@ def work_probe(P):
     return res, counter["over"]
 
 
+def long_inputs(P, ctx):
+    """LONG inputs (thousands of characters) on grammars without recursion: the engine's loops are iterative, so the
+    depth of the Python stack does not grow with the input; the answer is known from a regular expression of the same
+    language (unique end on these inputs).  Returns (number of requests, [(message, replay record)])."""
+    import re
+    cases = [
+        ([("r0", ("rep", 0, None, ("alt", [("range", 0x61, 0x7A), ("range", 0x30, 0x39)], False)), None)], r"[a-z0-9]*",
+         ["ab1" * 500, "q7" * 650 + "!", "z" * 1250 + "\x00" + "z"]),
+        ([("r0", ("rep", 1, None, ("cat", [("range", 0x61, 0x7A), ("range", 0x30, 0x39)])), None)], r"(?:[a-z][0-9])+",
+         ["a1" * 1100, "b2" * 600 + "c", "x"]),
+        ([("r0", ("cat", [("rep", 0, None, ("alt", [("lit", "ab", False), ("lit", "a", False), ("lit", "b", False)], False)), ("lit", "c", False)]), None)],
+         r"[ab]*c", ["ab" * 150 + "c", "ba" * 120 + "cab", "ab" * 130]),
+        ([("r0", ("cat", [("ref", 1), ("lit", " #", False), ("ref", 1)]), None), ("r1", ("rep", 0, None, ("range", 0x20, 0x7E)), None)],
+         r"[ -~]* #[ -~]*", ["k" * 1100 + " #" + "v" * 300, "no marker " * 120]),
+        ([("r0", ("rep", 0, None, ("ref", 1)), None), ("r1", ("alt", [("lit", "\U0001F600", True), ("lit", "\ud800", True), ("range", 0x61, 0x62)], False), None)],
+         "(?:\U0001F600|\ud800|[ab])*", ["a\U0001F600b\ud800" * 300, "ab" * 650 + "\x00"]),
+    ]
+    n = 0
+    bad = []
+    for gr, rx, sources in cases:
+        cls, rules = G_.build(P, gr)
+        for src in sources:
+            m = re.match(rx, src)
+            want = "ok %d" % m.end() if m else "fail"
+            wanta = "ok %d" % len(src) if re.fullmatch(rx, src) else "fail"
+            for kind, exp in (("parse", want), ("parse_all", wanta)):
+                n += 1
+                got = ec.with_budget(20.0, (lambda: lib.py_parse(P, rules[0], src, 0)) if kind == "parse" else (lambda: lib.py_parse_all(P, rules[0], src)), "slow")
+                head = " ".join(got.split(" ")[:2]) if got.startswith("ok") else got
+                if head != exp:
+                    bad.append(("%s of a %d-character input on a grammar without recursion gives %r, expected %r" % (kind, len(src), head[:60], exp),
+                                {"kind": "long", "grammar": gr, "source": [ord(c) for c in src], "request": kind, "implementation": head, "expected": exp}))
+    return n, bad
+
+
 def run(ctx):
     P = lib.import_repo()
     cc.proof_part(ctx)
@@ -332,6 +368,12 @@ def run(ctx):
             rep += 1
             ctx.report("no answer within %.0f s CPU for %r at %d, also with Rule.lparse memoised" % (ec.CASE_BUDGET_S, s_, d["offset"]),
                        {"kind": "engine-slow", "mode": "ends", **d}, key="slow:" + lib.digest([d["grammar"], d["source"], d["offset"]]))
+    # (a') long inputs
+    n_long, bad_long = long_inputs(P, ctx)
+    for msg, rec in bad_long[:3]:
+        found = True
+        rep += 1
+        ctx.report(msg, rec, key="long:" + lib.digest([rec["grammar"], rec["source"][:50], len(rec["source"]), rec["request"]]))
     # (b) load atomicity
     n = ctx.budget(320, 6000)
     chunks = 32
@@ -355,10 +397,10 @@ def run(ctx):
                 ctx.report("%s: %r" % (why, text[:120]), {"kind": "load", "route": route, "text": text, "model": mclass, "implementation": outcome, "why": why},
                            key="load:" + lib.digest([route, text]))
     ctx.coverage.update({
-        "evaluations": st["cases"] + nload,
+        "evaluations": st["cases"] + nload + n_long, "long_input_requests": n_long,
         "distinct_nontrivial": st["distinct_nontrivial"] + rejected,
         "rule": "(a) generated grammars incl. undefined references and nullable repetitions x strings over an alphabet with NUL, U+10FFFF, lone surrogate, "
-                "look-alikes x every offset; (b) valid rule/rulelist texts corrupted 0-2 times at random positions, loaded via create / load_grammar strict / non-strict; "
+                "look-alikes x every offset; (a') inputs of 260-2200 characters on recursion-free grammars with the answer known from a regular expression; (b) valid rule/rulelist texts corrupted 0-2 times at random positions, loaded via create / load_grammar strict / non-strict; "
                 "non-trivial = (a) >= 2 ends or failure before end of input, (b) text rejected by the reader model",
         "samples": info["samples"][:2] + samples, "engine_stats": st, "load_outcomes": {str(k): v for k, v in kinds.items()},
         "outcome_class_disagreements": classes_bad, "disagreements_model_vs_impl": len(dis), "work_probe": work, "f14_series": f14_plain, "f14_with_memo_s": round(f14_memo_s, 3), "slow_cases": len(info.get("slow", [])),
@@ -369,6 +411,13 @@ def run(ctx):
 
 def replay(rp):
     P = lib.import_repo()
+    if rp.get("kind") == "long":
+        src = "".join(chr(c) for c in rp["source"])
+        cls, rules = G_.build(P, [tuple(r) for r in rp["grammar"]])
+        got = lib.py_parse(P, rules[0], src, 0) if rp["request"] == "parse" else lib.py_parse_all(P, rules[0], src)
+        head = " ".join(got.split(" ")[:2]) if got.startswith("ok") else got
+        print("now:", head[:80], "expected:", rp["expected"])
+        return 0 if head == rp["expected"] else 1
     if rp.get("kind") == "load":
         cls = type("C12r", (P.Rule,), {})
         before = registry_snapshot(P)
